@@ -190,7 +190,13 @@ func (c *ClientOptions) handleCallback() func(context.Context, *jmessage) []byte
 				rsp.E = &Error{Code: ErrorCode(err), Message: err.Error()}
 			}
 		}
-		bits, _ := rsp.toJSON()
+		bits, err := rsp.toJSON()
+		if err != nil && rsp.E != nil {
+			// The error could not be encoded (its data are not valid JSON).
+			// The server still needs a reply, so send it without the data.
+			rsp.E = &Error{Code: rsp.E.Code, Message: rsp.E.Message}
+			bits, _ = rsp.toJSON()
+		}
 		return bits
 	}
 }
